@@ -11,8 +11,58 @@
 mod util;
 #[path = "../vmcore.rs"]
 mod vmcore;
-#[path = "../vm/drivers.rs"]
-mod drivers;
+// The few public helpers of ../vm/drivers.rs this binary needs (world / new_vm / simple_script / random_gas / BOUNDARY) are
+// copied below in `mod drivers` instead of including the file: drivers.rs is edited concurrently by other builders and a
+// half-finished edit there must not break this binary.
+mod drivers {
+    use crate::vmcore::*;
+    use fuel_tx::{ConsensusParameters, GasCosts, Script, TransactionBuilder, TxParameters};
+    use fuel_vm::prelude::*;
+    use fuel_vm::{checked_transaction::Checked, interpreter::MemoryInstance, storage::MemoryStorage};
+    use rand::{rngs::StdRng, Rng};
+    use serde_json::json;
+
+    pub fn small_params(max_inputs: u16) -> ConsensusParameters {
+        let mut p = ConsensusParameters::standard();
+        let tx = TxParameters::DEFAULT.with_max_inputs(max_inputs);
+        p.set_tx_params(tx);
+        p
+    }
+    pub fn world(max_inputs: u16, gas_price: u64) -> World {
+        World { params: small_params(max_inputs), gas_price, storage: MemoryStorage::default(), block_height: 0 }
+    }
+    pub fn new_vm(w: &World) -> Vm<MemoryStorage> {
+        Vm::<MemoryStorage>::with_storage(MemoryInstance::new(), w.storage.clone(), w.iparams())
+    }
+    pub fn simple_script(w: &World, _rng: &mut StdRng, code: Vec<u8>, data: Vec<u8>, gas_limit: u64) -> Result<Checked<Script>, String> {
+        let tx = TransactionBuilder::script(code, data)
+            .script_gas_limit(gas_limit)
+            .max_fee_limit(0)
+            .with_params(w.params.clone())
+            .add_fee_input()
+            .finalize();
+        checked_script(tx, w)
+    }
+    pub const BOUNDARY: [u64; 30] = [
+        0, 1, 2, 3, 7, 8, 63, 64, 65, 255, 256, 257, 65535, 65536, 65537,
+        0xffff_ffff, 0x1_0000_0000, 0x1_0000_0001, (1 << 63) - 1, 1 << 63, (1 << 63) + 1, u64::MAX - 1, u64::MAX,
+        9, 27, 1000, 1 << 32, 4_294_967_297, 3_037_000_499, 3_037_000_500,
+    ];
+    /// a gas schedule whose every number is drawn from 1..=hi (same shape/version as the default one)
+    pub fn random_gas(rng: &mut StdRng, hi: u64) -> GasCosts {
+        fn walk(v: &mut serde_json::Value, rng: &mut StdRng, hi: u64) {
+            match v {
+                serde_json::Value::Number(_) => { *v = json!(rng.gen_range(1..=hi)); }
+                serde_json::Value::Array(a) => a.iter_mut().for_each(|x| walk(x, rng, hi)),
+                serde_json::Value::Object(o) => o.values_mut().for_each(|x| walk(x, rng, hi)),
+                _ => {}
+            }
+        }
+        let mut v = serde_json::to_value(GasCosts::default()).expect("ser");
+        walk(&mut v, rng, hi);
+        serde_json::from_value(v).expect("de")
+    }
+}
 
 use fuel_asm::{op, RegId};
 use fuel_vm::storage::MemoryStorage;
@@ -324,9 +374,9 @@ fn run_case(out: &mut Out, run: u64, i: &mut u64, vm: &mut Vm<MemoryStorage>, pc
 fn wide(o: &Opts, out: &mut Out, run: &mut u64) {
     let thorough = o.thorough();
     let mut rng = o.rng(22);
-    let reps_valid = o.opt("--reps").and_then(|s| s.parse().ok()).unwrap_or(if thorough { 150 } else { 9 });
-    let reps_other = if thorough { 6 } else { 1 };
-    let reps_four = if thorough { 1800 } else { 90 };
+    let reps_valid = o.opt("--reps").and_then(|s| s.parse().ok()).unwrap_or(if thorough { 250 } else { 9 });
+    let reps_other = if thorough { 8 } else { 1 };
+    let reps_four = if thorough { 3000 } else { 90 };
     // the case list: (instruction, immediate, flag) with repetitions; shuffled so that every session mixes instructions
     let mut cases: Vec<Case> = vec![];
     for (opc, fam, w) in OPS {
